@@ -12,6 +12,7 @@ import (
 	"fmt"
 	"os"
 	"path/filepath"
+	"time"
 
 	"github.com/ProtonMail/go-crypto/openpgp"
 	"github.com/ProtonMail/go-crypto/openpgp/armor"
@@ -61,6 +62,27 @@ func main() {
 	cfg := &packet.Config{RSABits: 2048, DefaultHash: crypto.SHA256, Algorithm: packet.PubKeyAlgoRSA}
 	write := func(name string, data []byte) {
 		must(os.WriteFile(filepath.Join(dir, name), data, 0o644))
+	}
+	if len(os.Args) > 2 && os.Args[2] == "only-e" {
+		// key E: unprotected, primary key plus a signing subkey; key D is made
+		// from it with: gpg --import pgp_e.asc; gpg --export-secret-subkeys
+		// (primary secret key becomes a GNU dummy stub)
+		// made "at" 06:00Z, before the simulated instant every build runs at
+		cfg.Time = func() time.Time { return time.Date(2026, 10, 2, 6, 0, 0, 0, time.UTC) }
+		e, err := openpgp.NewEntity("Verif Harness E", "unprotected subkey test key", "e@verif.invalid", cfg)
+		must(err)
+		must(e.AddSigningSubkey(cfg))
+		write("pgp_e.pub.asc", serializePub(e, true))
+		write("pgp_e.pub.gpg", serializePub(e, false))
+		write("pgp_e.keyid", []byte(fmt.Sprintf("%016x", e.PrimaryKey.KeyId)))
+		for _, sk := range e.Subkeys {
+			if sk.Sig != nil && sk.Sig.FlagsValid && sk.Sig.FlagSign {
+				write("pgp_e.subkeyid", []byte(fmt.Sprintf("%016x", sk.PublicKey.KeyId)))
+			}
+		}
+		write("pgp_e.asc", serializePriv(e, true))
+		fmt.Println("key E written to", dir)
+		return
 	}
 	if len(os.Args) > 2 && os.Args[2] == "only-c" {
 		// key C: protected, primary key plus a signing subkey (key_id may name either)
